@@ -109,3 +109,32 @@ PROPS.update({
                'LRU resolver is bounded (E-B).', design_ref='DESIGN.md 3/C17',
                level_note=TRUST_COMMON + ' "Table stays in step with the wire" across last-chance validation failures is not decidable by a contract (RefCell behind &self).'),
 })
+
+# ---------------------------------------------------------------------------------------------- E-B groups
+EB_ENGINE = {'name': 'engine', 'crate': 'gneiss-mqtt', 'module_dir': 'gneiss_mqtt', 'filters': ['engine::'], 'tests': ['engine_closed_connack_reset_contracts'], 'timeout': 3000,
+             'bound': 'see BOUNDED line: <=2 (quick) / <=3 (thorough) operations x progress scripts <=3/<=4 x policies x drain x versions x retry limits x session'}
+EB_SORT = {'name': 'sort', 'crate': 'gneiss-mqtt', 'module_dir': 'gneiss_mqtt', 'filters': ['misc::'], 'tests': ['sort_operation_deque_all_small_layouts'], 'timeout': 3000}
+EB_CLIENT = {'name': 'client', 'crate': 'gneiss-mqtt', 'module_dir': 'gneiss_mqtt', 'filters': ['client::'], 'tests': ['client_event_grammar_and_loop_survival', 'client_new_initial_period_normalized'], 'timeout': 3000}
+
+
+def _findings_group(tests):
+    return {'name': 'findings', 'crate': 'gneiss-mqtt', 'module_dir': 'gneiss_mqtt', 'filters': ['findings::'], 'tests': tests, 'timeout': 3000}
+
+
+def _eb_engine(thorough_only=False):
+    g = dict(EB_ENGINE)
+    if thorough_only:
+        g['thorough_only'] = True
+    return g
+
+
+for _p in ('C01', 'C04', 'C06', 'C15', 'C18', 'C11'):
+    PROPS[_p]['eb'] = [_eb_engine()]
+for _p in ('C05', 'C07', 'C08', 'C09'):
+    PROPS[_p]['eb'] = [_eb_engine(thorough_only=True)]
+PROPS['C10']['eb'] = [_eb_engine(), EB_SORT]
+PROPS['C12']['eb'] = [EB_CLIENT]
+PROPS['C19']['eb'] = [dict(EB_CLIENT, tests=['client_new_initial_period_normalized'])]
+PROPS['C11']['eb'].append(_findings_group(['f_timeout_current_panics']))
+PROPS['C02']['eb'] = [_findings_group(['f_subid_wire_width'])]
+PROPS['C16']['eb'] = [_findings_group(['f_subid_avail_not_enforced'])]
